@@ -91,16 +91,24 @@ Proof.
   destruct bv; reflexivity.
 Qed.
 
-(* the skipped operand is not evaluated: whatever b is (even one that traps or is not
-   compilable to a total tree), the outcome is decided by a alone *)
-Lemma and_skips_cur a b env t :
-  evalc64 env a = Some false -> lower_cond lowcfg_cur (PAnd a b) CYes CNo = Some t ->
+(* the operands after the deciding one are not evaluated: whatever [post] is (operands that
+   trap, any number of them), the outcome is fixed by the prefix and the deciding operand *)
+Lemma and_skips_cur pre a post env t :
+  Forall (fun c => evalc64 env c = Some true) pre -> evalc64 env a = Some false ->
+  lower_cond lowcfg_cur (PBoolOp true (pre ++ a :: post)) CYes CNo = Some t ->
   eval_ctree env t = ODone false.
-Proof. intros He. apply cond_exact_cur. cbn [evalc64]. now rewrite He. Qed.
-Lemma or_skips_cur a b env t :
-  evalc64 env a = Some true -> lower_cond lowcfg_cur (POr a b) CYes CNo = Some t ->
+Proof.
+  intros Hp He. apply cond_exact_cur. cbn [evalc64].
+  exact (chain_eval_decided env true pre a post Hp He).
+Qed.
+Lemma or_skips_cur pre a post env t :
+  Forall (fun c => evalc64 env c = Some false) pre -> evalc64 env a = Some true ->
+  lower_cond lowcfg_cur (PBoolOp false (pre ++ a :: post)) CYes CNo = Some t ->
   eval_ctree env t = ODone true.
-Proof. intros He. apply cond_exact_cur. cbn [evalc64]. now rewrite He. Qed.
+Proof.
+  intros Hp He. apply cond_exact_cur. cbn [evalc64].
+  exact (chain_eval_decided env false pre a post Hp He).
+Qed.
 
 (* ---- gen_for *)
 Lemma for_cur straight body init n fuel :
